@@ -21,7 +21,9 @@ import (
 
 	"github.com/icon-project/goloop/common"
 	"github.com/icon-project/goloop/common/db"
+	"github.com/icon-project/goloop/common/intconv"
 	"github.com/icon-project/goloop/common/log"
+	"github.com/icon-project/goloop/module"
 	"github.com/icon-project/goloop/service/state"
 	"verif/harness/hxlib"
 )
@@ -37,6 +39,94 @@ type op struct {
 	B bool   `json:"b,omitempty"` // block/disable argument
 	W int    `json:"w,omitempty"` // init: owner index
 	H bool   `json:"h,omitempty"` // use the handle obtained earlier instead of calling GetAccountState again
+	D *dctx  `json:"d,omitempty"` // adddep / withdraw / pay: the Deposit/Pay context
+	X string `json:"x,omitempty"` // withdraw: deposit id (hex)
+	N bool   `json:"n,omitempty"` // withdraw: value is nil (withdraw everything)
+}
+
+// dctx implements state.DepositContext and state.PayContext
+type dctx struct {
+	Price  int64  `json:"price"`
+	Height int64  `json:"height"`
+	Term   int64  `json:"term"`
+	Rate   int64  `json:"rate"`
+	Tid    string `json:"tid"` // hex
+	Off    bool   `json:"off,omitempty"`
+}
+
+func (d *dctx) StepPrice() *big.Int        { return big.NewInt(d.Price) }
+func (d *dctx) FeeLimit() *big.Int         { return big.NewInt(d.Price) }
+func (d *dctx) BlockHeight() int64         { return d.Height }
+func (d *dctx) DepositTerm() int64         { return d.Term }
+func (d *dctx) DepositIssueRate() *big.Int { return big.NewInt(d.Rate) }
+func (d *dctx) TransactionID() []byte      { return mustHex(d.Tid) }
+func (d *dctx) FeeSharingEnabled() bool    { return !d.Off }
+
+func (d *dctx) enc(e *enc) {
+	e.z(big.NewInt(d.Price))
+	e.z(big.NewInt(d.Height))
+	e.z(big.NewInt(d.Term))
+	e.z(big.NewInt(d.Rate))
+	e.bytes(mustHex(d.Tid))
+	e.bool(!d.Off)
+}
+
+// one deposit as shown by GetDepositInfo
+type dep struct {
+	v1                                      bool
+	id                                      []byte
+	amount, remain, expire, issued, sremain *big.Int
+}
+
+func (d dep) String() string {
+	if d.v1 {
+		return fmt.Sprintf("v1(%x,%v,%v,%v,%v,%v)", d.id, d.amount, d.remain, d.expire, d.issued, d.sremain)
+	}
+	return fmt.Sprintf("v2(%v)", d.remain)
+}
+
+func depsString(l []dep) string {
+	var a []string
+	for _, d := range l {
+		a = append(a, d.String())
+	}
+	return "[" + strings.Join(a, " ") + "]"
+}
+
+var infoCtx = &dctx{Price: 1, Height: 0}
+
+func jsonBig(v interface{}) *big.Int {
+	s, _ := v.(string)
+	i := new(big.Int)
+	if err := intconv.ParseBigInt(i, s); err != nil {
+		panic("GetDepositInfo: unparsable number " + s)
+	}
+	return i
+}
+
+func observeDeposits(d state.AccountData) []dep {
+	m, err := d.GetDepositInfo(infoCtx, module.JSONVersion3)
+	if err != nil {
+		panic("GetDepositInfo failed: " + err.Error())
+	}
+	if m == nil {
+		return nil
+	}
+	var res []dep
+	for _, x := range m["deposits"].([]interface{}) {
+		j := x.(map[string]interface{})
+		if ids, ok := j["id"]; ok {
+			id, _ := hex.DecodeString(strings.TrimPrefix(ids.(string), "0x"))
+			amount := jsonBig(j["depositAmount"])
+			issued := jsonBig(j["virtualStepIssued"])
+			res = append(res, dep{v1: true, id: id, amount: amount,
+				remain: new(big.Int).Sub(amount, jsonBig(j["depositUsed"])), expire: jsonBig(j["expires"]),
+				issued: issued, sremain: new(big.Int).Sub(issued, jsonBig(j["virtualStepUsed"]))})
+		} else {
+			res = append(res, dep{remain: jsonBig(j["depositRemain"])})
+		}
+	}
+	return res
 }
 
 type hcase struct {
@@ -59,12 +149,17 @@ type lacct struct {
 	isc   bool
 	own   int // -1 = none
 	flg   int // 1 disabled, 2 blocked
+	// deposits: what the live account showed after its last deposit operation (the oracle is about snapshots
+	// keeping it, not about the deposit arithmetic), and the deposit operations that led there (for the rebuild)
+	deps    []dep
+	dephist []op
 }
 
 func newAcct() *lacct { return &lacct{bal: new(big.Int), store: map[string][]byte{}, own: -1} }
 
 func (l *lacct) clone() *lacct {
-	c := &lacct{bal: new(big.Int).Set(l.bal), store: map[string][]byte{}, isc: l.isc, own: l.own, flg: l.flg}
+	c := &lacct{bal: new(big.Int).Set(l.bal), store: map[string][]byte{}, isc: l.isc, own: l.own, flg: l.flg,
+		deps: append([]dep(nil), l.deps...), dephist: append([]op(nil), l.dephist...)}
 	for k, v := range l.store {
 		c.store[k] = append([]byte{}, v...)
 	}
@@ -104,7 +199,7 @@ func (w lworld) contentKey() string {
 	var sb strings.Builder
 	for _, a := range as {
 		l := w[a]
-		fmt.Fprintf(&sb, "%d:%s,%v,%d,%d{", a, l.bal, l.isc, l.own, l.flg)
+		fmt.Fprintf(&sb, "%d:%s,%v,%d,%d,%s{", a, l.bal, l.isc, l.own, l.flg, depsString(l.deps))
 		var ks []string
 		for k := range l.store {
 			ks = append(ks, k)
@@ -125,6 +220,7 @@ type aobs struct {
 	isc  bool
 	own  []byte // nil = no owner
 	flg  int
+	deps []dep
 	vals [][]byte
 }
 
@@ -140,6 +236,7 @@ func observe(d state.AccountData, keys [][]byte) (o aobs, err error) {
 	if d.IsBlocked() {
 		o.flg |= 2
 	}
+	o.deps = observeDeposits(d)
 	for _, k := range keys {
 		v, e := d.GetValue(k)
 		if e != nil {
@@ -190,6 +287,21 @@ func (o aobs) enc(e *enc) {
 	e.bool(o.isc)
 	e.optBytes(o.own)
 	e.byte(o.flg)
+	e.byte(len(o.deps))
+	for _, d := range o.deps {
+		if d.v1 {
+			e.byte(1)
+			e.bytes(d.id)
+			e.z(d.amount)
+			e.z(d.remain)
+			e.z(d.expire)
+			e.z(d.issued)
+			e.z(d.sremain)
+		} else {
+			e.byte(2)
+			e.z(d.remain)
+		}
+	}
 	for _, v := range o.vals {
 		e.optBytes(v)
 	}
@@ -239,6 +351,9 @@ func (o aobs) differs(l *lacct, keys [][]byte) string {
 	if o.flg != l.flg {
 		return fmt.Sprintf("state flags %d, expected %d", o.flg, l.flg)
 	}
+	if depsString(o.deps) != depsString(l.deps) {
+		return fmt.Sprintf("deposits %s, expected %s", depsString(o.deps), depsString(l.deps))
+	}
 	for i, k := range keys {
 		if !bytes.Equal(o.vals[i], l.store[string(k)]) {
 			return fmt.Sprintf("value[%x] = %x, expected %x", k, o.vals[i], l.store[string(k)])
@@ -251,6 +366,7 @@ func (o aobs) differs(l *lacct, keys [][]byte) string {
 
 type stats struct {
 	resets, clears, reloads, snaps int
+	depOps                         int
 	emptiedPresent                 bool // an account present in a snapshot was empty (absent) in a later one
 	resetChanged                   bool // a reset that changed the logical content
 }
@@ -278,7 +394,8 @@ type runner struct {
 	refs        []lworld
 	msg         string
 	st          stats
-	ops         enc // encoded operations with their observations
+	snapBytes   []map[int]string // per snapshot: the serialized account objects as first read
+	ops         enc              // encoded operations with their observations
 	nops        int
 }
 
@@ -350,6 +467,13 @@ func (r *runner) obsSnap(i int, o op, j int) []byte {
 			l.byte(0)
 			continue
 		}
+		// the serialized account (everything that enters the state hash), as first read
+		bs := string(as.Bytes())
+		if prev, ok := r.snapBytes[j][a]; !ok {
+			r.snapBytes[j][a] = bs
+		} else if prev != bs {
+			r.fail(i, o, "snapshot %d account %d: the serialized account changed after the snapshot was taken: %x -> %x", j, a, prev, bs)
+		}
 		l.byte(1)
 		ob.enc(&l)
 		if ref.empty() {
@@ -366,6 +490,7 @@ func (r *runner) obsSnap(i int, o op, j int) []byte {
 
 func (r *runner) addSnap(i int, o op, s state.WorldSnapshot, w lworld, fl bool) (int, []byte) {
 	r.snaps = append(r.snaps, s)
+	r.snapBytes = append(r.snapBytes, map[int]string{})
 	r.refs = append(r.refs, w)
 	r.flushed = append(r.flushed, fl)
 	h := s.StateHash()
@@ -459,6 +584,58 @@ func (r *runner) step(i int, o op) {
 			}
 		}
 		r.op(6, func(e *enc) { e.byte(o.A); e.bool(o.B) })
+	case "adddep", "withdraw", "pay":
+		l := r.cur.get(o.A)
+		if !l.isc || o.D == nil {
+			return // deposits are only used on contract accounts (as the service layer does); skipped otherwise
+		}
+		as := r.acct(o)
+		v, _ := new(big.Int).SetString(o.V, 10)
+		switch o.O {
+		case "adddep":
+			err := as.AddDeposit(o.D, v)
+			r.op(18, func(e *enc) { e.byte(o.A); o.D.enc(e); e.z(v); e.bool(err == nil) })
+		case "withdraw":
+			if o.N {
+				v = nil
+			}
+			amount, fee, err := as.WithdrawDeposit(o.D, mustHex(o.X), v)
+			r.op(19, func(e *enc) {
+				e.byte(o.A)
+				o.D.enc(e)
+				e.bytes(mustHex(o.X))
+				e.bool(v != nil)
+				if v != nil {
+					e.z(v)
+				}
+				e.bool(err == nil)
+				if err == nil {
+					e.z(amount)
+					e.z(fee)
+				}
+			})
+		case "pay":
+			paid, byDep, err := as.PaySteps(o.D, v)
+			if err != nil {
+				r.fail(i, o, "PaySteps failed: %v", err)
+			}
+			r.op(20, func(e *enc) {
+				e.byte(o.A)
+				o.D.enc(e)
+				e.z(v)
+				e.bool(paid != nil)
+				if paid != nil {
+					e.z(paid)
+				}
+				e.bool(byDep != nil)
+				if byDep != nil {
+					e.z(byDep)
+				}
+			})
+		}
+		l.deps = observeDeposits(as)
+		l.dephist = append(l.dephist, op{O: o.O, A: o.A, V: o.V, D: o.D, X: o.X, N: o.N})
+		r.st.depOps++
 	case "live", "peek":
 		var d state.AccountData
 		if o.O == "live" {
@@ -706,7 +883,42 @@ func (g *genState) anyFlushed(r *rand.Rand) int {
 	return l[r.Intn(len(l))]
 }
 
+var tidPool = []string{"a1", "b2b2"}
+
+func randCtx(r *rand.Rand, height *int64) *dctx {
+	*height += int64(r.Intn(4))
+	if r.Intn(12) == 0 {
+		*height += 100 // beyond the term of every deposit so far
+	}
+	c := &dctx{Price: []int64{100, 100, 10, 1, 0}[r.Intn(5)], Height: *height, Term: []int64{0, 0, 100, 5}[r.Intn(4)],
+		Rate: []int64{8, 50}[r.Intn(2)], Tid: tidPool[r.Intn(len(tidPool))], Off: r.Intn(15) == 0}
+	return c
+}
+
+func randDepositOp(r *rand.Rand, a int, height *int64) op {
+	c := randCtx(r, height)
+	switch r.Intn(10) {
+	case 0, 1, 2:
+		return op{O: "adddep", A: a, D: c, V: []string{"50000", "7000", "1000", "123456789"}[r.Intn(4)], H: r.Intn(2) == 0}
+	case 3, 4, 5, 6:
+		return op{O: "pay", A: a, D: c, V: []string{"120", "30", "4000", "100000", "1"}[r.Intn(5)], H: r.Intn(2) == 0}
+	default:
+		o := op{O: "withdraw", A: a, D: c, H: r.Intn(2) == 0}
+		if r.Intn(2) == 0 {
+			o.X = tidPool[r.Intn(len(tidPool))] // a v1 deposit; only complete withdrawal is allowed
+			o.N = r.Intn(4) > 0
+			o.V = "10"
+		} else {
+			o.X = ""
+			o.N = r.Intn(3) == 0
+			o.V = []string{"10", "500", "7000", "999999999999"}[r.Intn(4)]
+		}
+		return o
+	}
+}
+
 func genHist(r *rand.Rand, na, nk int) []op {
+	height := int64(10)
 	g := &genState{na: na, nk: nk}
 	n := 14 + r.Intn(28)
 	for i := 0; i < n; i++ {
@@ -729,12 +941,37 @@ func genHist(r *rand.Rand, na, nk int) []op {
 			}
 		case x < 52:
 			g.add(op{O: "init", A: a, W: r.Intn(len(owners)), H: h})
+			if r.Intn(2) == 0 {
+				g.add(randDepositOp(r, a, &height))
+			}
 		case x < 56:
 			g.add(op{O: "block", A: a, B: r.Intn(2) == 0, H: h})
 		case x < 58:
 			g.add(op{O: "disable", A: a, B: r.Intn(2) == 0, H: h})
-		case x < 62:
+		case x < 60:
 			g.add(op{O: "touch", A: a})
+		case x < 63: // deposit operations (skipped by the runner unless the account is a contract)
+			for j := 0; j < 1+r.Intn(2); j++ {
+				g.add(randDepositOp(r, a, &height))
+			}
+		case x < 65:
+			// a contract with a deposit, a snapshot, in-place deposit updates through the same account state,
+			// another snapshot, sometimes a Reset to the first one
+			g.add(op{O: "init", A: a, W: r.Intn(len(owners)), H: h})
+			g.add(op{O: "adddep", A: a, D: &dctx{Price: 100, Height: height, Term: []int64{0, 100}[r.Intn(2)], Rate: 8, Tid: tidPool[0]}, V: "50000", H: true})
+			g.snap()
+			for j := 0; j < 1+r.Intn(3); j++ {
+				g.add(randDepositOp(r, a, &height))
+			}
+			g.snap()
+			if r.Intn(2) == 0 {
+				g.add(op{O: "reset", I: g.nsnap - 2})
+				g.add(op{O: "live", A: a, H: true})
+				if r.Intn(2) == 0 {
+					g.add(randDepositOp(r, a, &height))
+				}
+				g.snap()
+			}
 		case x < 67:
 			g.add(op{O: "live", A: a, H: h})
 		case x < 71:
@@ -892,6 +1129,12 @@ func genRebuild(r *rand.Rand, w lworld, na, nk int, keys [][]byte) []op {
 			if l.flg&1 != 0 {
 				ops = append(ops, op{O: "disable", A: a, B: true, H: true})
 			}
+			for _, d := range l.dephist { // the deposit list is a function of the deposit operations on this account
+				ops = append(ops, d)
+				if r.Intn(4) == 0 {
+					ops = append(ops, op{O: "snap"})
+				}
+			}
 			noise()
 		}
 	}
@@ -981,12 +1224,23 @@ func fixedCases() []hcase {
 		{ac, ks, []op{{O: "bal", A: 0, V: "5"}, {O: "snap"}, {O: "bal", A: 0, V: "0", H: true}, {O: "snap"}, {O: "clear"}, {O: "touch", A: 0}, {O: "reset", I: 0},
 			{O: "bal", A: 0, V: "0", H: true}, {O: "snap"}, {O: "obs", I: 2}, {O: "reset", I: 0}, {O: "set", A: 0, K: 0, V: "01", H: true}, {O: "bal", A: 0, V: "0", H: true}, {O: "del", A: 0, K: 0, H: true}, {O: "snap"}},
 			[]op{{O: "snap"}}},
+		// deposits: snapshot, then in-place updates (pay, add to the same deposit, partial withdraw, removal of the first of two), reset
+		{ac, ks, []op{{O: "init", A: 0, W: 0}, {O: "adddep", A: 0, D: &dctx{Price: 100, Height: 10, Term: 0, Rate: 8, Tid: "01"}, V: "50000", H: true}, {O: "snap"},
+			{O: "pay", A: 0, D: &dctx{Price: 100, Height: 11, Rate: 8, Tid: "01"}, V: "120", H: true}, {O: "adddep", A: 0, D: &dctx{Price: 100, Height: 11, Rate: 8, Tid: "01"}, V: "7000", H: true}, {O: "snap"},
+			{O: "obs", I: 0}, {O: "reset", I: 0}, {O: "live", A: 0, H: true}, {O: "snap"},
+			{O: "adddep", A: 0, D: &dctx{Price: 100, Height: 12, Term: 100, Rate: 8, Tid: "a1"}, V: "50000", H: true}, {O: "snap"},
+			{O: "withdraw", A: 0, D: &dctx{Price: 100, Height: 13, Rate: 8, Tid: "01"}, X: "", V: "500", H: true}, {O: "pay", A: 0, D: &dctx{Price: 100, Height: 13, Rate: 8, Tid: "01"}, V: "100", H: true}, {O: "snap"},
+			{O: "withdraw", A: 0, D: &dctx{Price: 100, Height: 14, Rate: 8, Tid: "01"}, X: "", N: true, H: true}, {O: "snap"}, {O: "obs", I: 3}, {O: "obs", I: 4},
+			{O: "reset", I: 3}, {O: "peek", A: 0}, {O: "flush", I: 4}, {O: "reload", I: 4}, {O: "pay", A: 0, D: &dctx{Price: 100, Height: 15, Rate: 8, Tid: "01"}, V: "100000"}, {O: "snap"}},
+			[]op{{O: "snap"}}},
 		// contract flag and state flags take part in emptiness
 		{ac, ks, []op{{O: "block", A: 0, B: true}, {O: "snap"}, {O: "block", A: 0, B: false, H: true}, {O: "snap"}, {O: "init", A: 1, W: 1}, {O: "disable", A: 1, B: true, H: true}, {O: "snap"},
 			{O: "disable", A: 2, B: true}, {O: "snap"}, {O: "reset", I: 1}, {O: "live", A: 1, H: true}, {O: "init", A: 1, W: 0, H: true}, {O: "snap"}, {O: "obs", I: 2}, {O: "ro", I: 2}},
 			[]op{{O: "init", A: 1, W: 0}, {O: "snap"}}},
 	}
 }
+
+var totDepOps, casesWithDep int
 
 func emit(c *hxlib.Ctx, kind string, hc hcase, idx int) {
 	var coq, msg string
@@ -998,6 +1252,10 @@ func emit(c *hxlib.Ctx, kind string, hc hcase, idx int) {
 		Nontrivial: st.resetChanged && (st.clears+st.reloads) > 0 && st.emptiedPresent && st.snaps >= 3}
 	if kind == "fixed" {
 		cs.Nontrivial = true
+	}
+	totDepOps += st.depOps
+	if st.depOps > 0 {
+		casesWithDep++
 	}
 	if !c.OracleOnly {
 		cs.Coq = coq
@@ -1014,13 +1272,14 @@ func gen(c *hxlib.Ctx) {
 	for i := 0; i < c.N(400); i++ {
 		emit(c, "hist", genCase(c.Sub("hist", i)), i)
 	}
+	c.Note("deposit operations executed on contract accounts: %d, in %d cases", totDepOps, casesWithDep)
 	// canaries: a wrong balance; two snapshots with different contents reported with the same hash
 	c.Emit(hxlib.Case{Kind: "canary", Canary: true,
-		Coq: "(CHist [[1]] [[1]] [cBal 0 (5)%Z; cLive 0 (AO (6)%Z false None 0 [None])] [])"})
+		Coq: "(CHist [[1]] [[1]] [cBal 0 (5)%Z; cLive 0 (AO (6)%Z false None 0 [] [None])] [])"})
 	c.Emit(hxlib.Case{Kind: "canary", Canary: true,
-		Coq: "(CHist [[1]] [[1]] [cSnap 0 [None]; cBal 0 (5)%Z; cSnap 0 [Some (AO (5)%Z false None 0 [None])]] [])"})
+		Coq: "(CHist [[1]] [[1]] [cSnap 0 [None]; cBal 0 (5)%Z; cSnap 0 [Some (AO (5)%Z false None 0 [] [None])]] [])"})
 	c.Emit(hxlib.Case{Kind: "canary", Canary: true,
-		Coq: "(CHist [[1]] [[1]] [cBal 0 (5)%Z; cSnap 0 [Some (AO (5)%Z false None 0 [None])]; cBal 0 (0)%Z; cSnap 1 [Some (AO (0)%Z false None 0 [None])]] [])"})
+		Coq: "(CHist [[1]] [[1]] [cBal 0 (5)%Z; cSnap 0 [Some (AO (5)%Z false None 0 [] [None])]; cBal 0 (0)%Z; cSnap 1 [Some (AO (0)%Z false None 0 [] [None])]] [])"})
 }
 
 func replay(raw json.RawMessage) string {
@@ -1040,7 +1299,7 @@ func main() {
 	hxlib.Main(hxlib.Spec{
 		ID: "C14",
 		Rule: "pairs of histories on state.NewWorldState over db.NewMapDB(), 3-5 accounts x 2-3 storage keys: SetBalance (0, small, 2^70, 2^128), SetValue/DeleteValue (incl. empty value = delete), " +
-			"account drains, InitContractAccount/SetBlock/SetDisable, touches, reads through GetAccountState and WorldState.GetAccountSnapshot, GetSnapshot, Reset to any earlier snapshot, ClearCache, " +
+			"account drains, InitContractAccount/SetBlock/SetDisable, fee-sharing deposits on contract accounts (AddDeposit v1/v2, PaySteps, partial/complete WithdrawDeposit, expiry), touches, reads through GetAccountState and WorldState.GetAccountSnapshot, GetSnapshot, Reset to any earlier snapshot, ClearCache, " +
 			"snapshot Flush, reload with NewWorldState(db, hash), WorldStateFromSnapshot, NewWorldSnapshot(db, hash), read-only world states; handles are reused or re-obtained at random. " +
 			"After EVERY step every snapshot obtained so far is read completely (all accounts, all keys, hash) and compared with what it showed when taken. The second history rebuilds the content of the " +
 			"first one's last snapshot from scratch in a shuffled order with traceless noise. Direct oracle: a Go reference of plain maps (snapshots = deep copies, Reset = assignment); " +
